@@ -265,18 +265,26 @@ def _invariants(p, site, V, what, uniform_dx):
 # ------------------------------------------------------------------------------------------
 # point location
 
-def axis_points(b, x):
-    """Per-axis point set: every cell boundary, node, cell midpoint and quarter point."""
+def axis_points(b, x, near=True):
+    """Per-axis point set: every cell boundary, node, cell midpoint and quarter point, and
+    (``near``) the neighbours of every boundary: one ulp, 1e-9 and 1e-6*max(1,|b|) on either
+    side (inside the domain) -- closer than any tolerance a comparison might use."""
     pts = set(float(v) for v in b) | set(float(v) for v in x)
     for i in range(len(b) - 1):
         w = b[i + 1] - b[i]
         for q in (0.25, 0.5, 0.75):
             pts.add(float(b[i] + q * w))
+    if near:
+        for v in b:
+            v = float(v)
+            d6 = 1e-6 * max(1.0, abs(v))
+            pts.update([float(np.nextafter(v, -np.inf)), float(np.nextafter(v, np.inf)),
+                        v - 1e-9, v + 1e-9, v - d6, v + d6])
     lo, hi = float(b[0]), float(b[-1])
     return sorted(v for v in pts if lo <= v <= hi)
 
 
-def check_points(p, site, V, what='', star=False):
+def check_points(p, site, V, what='', star=False, near=True):
     """index(pt) and index(pt, floating=True) for the product of the per-axis point sets
     (``star``: one axis varies over its full set while the others sit on 3 positions)."""
     nd = p.ndim
@@ -284,7 +292,7 @@ def check_points(p, site, V, what='', star=False):
         return
     bs = [np.asarray(v, dtype=float) for v in p.cell_boundary_vecs]
     frb = [[Fr(float(v)) for v in b] for b in bs]
-    sets = [axis_points(b, x) for b, x in zip(bs, p.coord_vectors)]
+    sets = [axis_points(b, x, near=near) for b, x in zip(bs, p.coord_vectors)]
     if nd > 1 and int(np.prod([len(q) for q in sets])) > PRODUCT_CAP:
         star = True
     if star and nd > 1:
@@ -548,7 +556,8 @@ def explore_getitem(p, pref, base_site, V, full2=False, points_star=True):
         site = _gsite(base_site, idx)
         what = 'child [%s] of {%s}' % (_enc(idx), describe(pref))
         invariants(child, site, V, what)
-        check_points(child, base_site + '.__getitem__.index', V, what, star=points_star)
+        check_points(child, base_site + '.__getitem__.index', V, what, star=points_star,
+                     near=(full2 and not points_star))
         for idx2 in index_exprs(child.shape, full=full2, lists=full2):
             r = check_child(child, cref, idx2, _gsite(base_site, idx2), V,
                             'depth 2 via [%s]' % _enc(idx))
@@ -1412,6 +1421,341 @@ def check_aliasing(cfg, p0, reqref, exact, dxs, V):
 
 
 # ------------------------------------------------------------------------------------------
+# mutable container arguments (dicts, lists) and non-mutating methods
+
+JUDGE_ARGUMENT_MODIFIED = False
+# A function changing a dict / list it was given is *recorded* (signature, evidence) but judged
+# only through its consequence, which is what C14 speaks about: a second call with the same
+# container object must describe the same partition as a call with a fresh equal container.
+# (Same ruling as for arrays handed out by getters: the property does not promise copies.)
+
+
+def _deep(v):
+    if isinstance(v, dict):
+        return dict((k, _deep(w)) for k, w in v.items())
+    if isinstance(v, list):
+        return [_deep(w) for w in v]
+    if isinstance(v, tuple):
+        return tuple(_deep(w) for w in v)
+    return v
+
+
+def _shrunk(reqref):
+    """Another grid of the same shape inside the first one: nodes pulled half way towards the
+    middle of the node range (a 1-node axis moves by 1/8); limits pulled the same way."""
+    out = []
+    for a in reqref:
+        mid = (a.nodes[0] + a.nodes[-1]) / 2
+        if a.n == 1:
+            out.append(R.Ax(a.lo, a.hi, [a.nodes[0] + (a.hi - a.nodes[0]) / 8]))
+        else:
+            out.append(R.Ax(mid + (a.lo - mid) / 2, mid + (a.hi - mid) / 2,
+                            [mid + (x - mid) / 2 for x in a.nodes]))
+    return out
+
+
+def _twice(V, site, what, make, call, others, expect=None, exact=True):
+    """call(containers, other) with the same container objects for every element of ``others``;
+    after every call: containers unchanged (recorded / judged, see above); result identical to
+    the result with fresh equal containers; optional model comparison ``expect[k]``."""
+    cont = make()
+    for k, other in enumerate(others):
+        before = _deep(cont)
+        V.evals += 1
+        try:
+            ref_q = call(make(), other)
+        except Exception:       # noqa
+            # the request itself is not admissible (judged by the routes family, not here)
+            V.evals -= 1
+            V.skipped += 1
+            continue
+        try:
+            q = call(cont, other)
+        except Exception as e:       # noqa
+            V.add(site, 'second_call_raises:' + type(e).__name__ if k else
+                  'raises:' + type(e).__name__,
+                  '%s: call %d with the container object(s) already used %d time(s): %r; a '
+                  'fresh equal container works' % (what, k + 1, k, e))
+            continue
+        if _canon_c(cont) != _canon_c(before):
+            V.sigs.add('argument-modified:%s' % site)
+            if JUDGE_ARGUMENT_MODIFIED:
+                V.add(site, 'argument_modified', '%s: call %d changed its argument from %r to %r'
+                      % (what, k + 1, before, cont))
+        s_q, s_ref = snapshot_any(q), snapshot_any(ref_q)
+        d = snap_diff(s_ref, s_q)
+        if d:
+            V.add(site, 'reused_container_gives_other_result',
+                  '%s: call %d with the same container object(s) %r as the previous call(s): %s '
+                  'is %s, with a fresh equal container %s'
+                  % (what, k + 1, before, d[0], s_q[d[0]], s_ref[d[0]]))
+        if expect is not None and expect[k] is not None and isinstance(q, odl.RectPartition):
+            compare(q, expect[k], exact, site, V, '%s: call %d' % (what, k + 1))
+
+
+def _canon_c(v):
+    if isinstance(v, dict):
+        return '{' + ','.join('%r:%s' % (k, _canon_c(w)) for k, w in v.items()) + '}'
+    if isinstance(v, list):
+        return '[' + ','.join(_canon_c(w) for w in v) + ']'
+    if isinstance(v, tuple):
+        return '(' + ','.join(_canon_c(w) for w in v) + ')'
+    return type(v).__name__ + ':' + _canon(v)
+
+
+def snapshot_any(q):
+    if isinstance(q, odl.RectPartition):
+        return snapshot(q)
+    if isinstance(q, odl.RectGrid):
+        return {'grid.coord_vectors': _canon(q.coord_vectors)}
+    if isinstance(q, odl.IntervalProd):
+        return {'set.min_pt': _canon(q.min_pt), 'set.max_pt': _canon(q.max_pt)}
+    return {'value': _canon(q)}
+
+
+def check_containers(cfg, reqref, exact, dxs, V):
+    nd = len(reqref)
+    r1 = reqref
+    r2 = _shrunk(reqref)
+    what0 = 'request %s' % (cfg['axes'],)
+
+    def G(ref):
+        return odl.RectGrid(*[_fl(a.nodes) for a in ref])
+
+    # --- uniform_partition_fromgrid: dictionaries, also partial / empty / negative keys
+    def dict_variants(ref):
+        full = list(range(nd))
+        yield 'full', full, full
+        yield 'empty', [], []
+        yield 'min axis 0', [0], []
+        yield 'max last axis (negative key)', [], [-1]
+        if nd > 1:
+            yield 'axis 0 only', [0], [0]
+            yield 'last axis only (negative keys)', [-1], [-1]
+    grids = [(r1, 'grid 1'), (r2, 'shrunk grid'), (r1, 'grid 1 again')]
+    lower = ([(r1[:-1], 'grid 1 without its last axis')] if nd > 1 else [])
+    higher = [(list(r1) + [R.Ax(0, 2, [Fr(1, 2), Fr(3, 2)])], 'grid 1 with one more axis')]
+    for vname, kmin, kmax in dict_variants(r1):
+        def make(kmin=kmin, kmax=kmax):
+            return {'min': dict((k, float(r1[k].lo)) for k in kmin),
+                    'max': dict((k, float(r1[k].hi)) for k in kmax)}
+
+        def model(ref, kmin=kmin, kmax=kmax):
+            m = len(ref)
+            gmin = set(k % m for k in kmin)
+            gmax = set(k % m for k in kmax)
+            out = []
+            for ax, a in enumerate(ref):
+                lo = r1[ax].lo if ax in gmin and ax < nd else None
+                hi = r1[ax].hi if ax in gmax and ax < nd else None
+                if (lo is None or hi is None) and a.n == 1:
+                    return None
+                if (lo is not None and lo > a.nodes[0]) or (hi is not None and hi < a.nodes[-1]):
+                    return None
+                out.append(R.nonuniform_axis(a.nodes, lo=lo, hi=hi))
+            return out
+        seqs = [grids]
+        if all(k >= 0 for k in kmin + kmax):
+            # the same dictionary is a valid request for grids with fewer / more axes
+            if lower and all(k < nd - 1 for k in kmin + kmax):
+                seqs.append([grids[0], lower[0], grids[0]])
+            seqs.append([grids[0], higher[0]])
+            seqs.append([higher[0], grids[0]])
+        for seq in seqs:
+            V.sigs.add('containers:fromgrid:%s' % vname)
+            same = all(len(ref) == nd for ref, _ in seq)
+            _twice(V, 'container_args[uniform_partition_fromgrid,dict%s]'
+                   % ('' if same else ',grids of different ndim'),
+                   '%s; dicts (%s) reused for %s' % (what0, vname, [n for _, n in seq]),
+                   make,
+                   lambda c, ref: odl.uniform_partition_fromgrid(G(ref), min_pt=c['min'],
+                                                                 max_pt=c['max']),
+                   [ref for ref, _ in seq], expect=[model(ref) for ref, _ in seq],
+                   exact=all(ref_dyadic(ref) for ref, _ in seq))
+    # --- lists: nodes_on_bdry (nested), min_pt / max_pt / shape / cell_sides, coordinate vectors
+    lo1, hi1 = _fl(a.lo for a in r1), _fl(a.hi for a in r1)
+    vec1 = [_fl(a.nodes) for a in r1]
+    if cfg['kind'] == 'uni':
+        flags = [[bool(a[3]), bool(a[4])] for a in cfg['axes']]
+        shp = [a[2] for a in cfg['axes']]
+        shp2 = [n + 1 for n in shp]
+        cs = [1.0 if dx is None else float(dx) for dx in dxs]
+
+        def mk():
+            return {'lo': list(lo1), 'hi': list(hi1), 'nob': _deep(flags), 'cs': list(cs),
+                    'none': [None] * nd}
+        site = 'container_args[uniform_partition,lists]'
+        _twice(V, site, '%s; min/max/nodes_on_bdry lists reused with shapes %s, %s, %s'
+               % (what0, shp, shp2, shp), mk,
+               lambda c, sh: odl.uniform_partition(c['lo'], c['hi'], list(sh),
+                                                   nodes_on_bdry=c['nob']), [shp, shp2, shp])
+        if all(dx is not None and dx > 0 for dx in dxs):
+            _twice(V, site, '%s; min/[None]/cell_sides/nodes_on_bdry lists reused with shapes '
+                   '%s, %s, %s' % (what0, shp, shp2, shp), mk,
+                   lambda c, sh: odl.uniform_partition(c['lo'], c['none'], list(sh), c['cs'],
+                                                       nodes_on_bdry=c['nob']),
+                   [shp, shp2, shp])
+            _twice(V, site, '%s; [None]/max/cell_sides/nodes_on_bdry lists reused' % what0, mk,
+                   lambda c, sh: odl.uniform_partition(c['none'], c['hi'], list(sh), c['cs'],
+                                                       nodes_on_bdry=c['nob']),
+                   [shp, shp2, shp])
+        _twice(V, 'container_args[uniform_partition_fromintv,lists]',
+               '%s; shape / nodes_on_bdry lists reused' % what0,
+               lambda: {'nob': _deep(flags), 'shape': list(shp)},
+               lambda c, iv: odl.uniform_partition_fromintv(iv, c['shape'],
+                                                            nodes_on_bdry=c['nob']),
+               [odl.IntervalProd(lo1, hi1),
+                odl.IntervalProd([v - 1 for v in lo1], [v + 2 for v in hi1]),
+                odl.IntervalProd(lo1, hi1)])
+        _twice(V, 'container_args[uniform_grid,lists]',
+               '%s; min / max / nodes_on_bdry lists reused' % what0, mk,
+               lambda c, sh: odl.uniform_grid(c['lo'], c['hi'], list(sh),
+                                              nodes_on_bdry=c['nob']), [shp2, shp, shp2])
+    nob_seq = [[[False, False]] * nd, [[True, False]] * nd, [[False, True]] * nd,
+               [[False, False]] * nd]
+    _twice(V, 'container_args[nonuniform_partition,lists]',
+           '%s; coordinate vector lists reused with nodes_on_bdry %s' % (what0, nob_seq),
+           lambda: {'vecs': _deep(vec1)},
+           lambda c, nob: odl.nonuniform_partition(*c['vecs'], nodes_on_bdry=_deep(nob)),
+           nob_seq, expect=[[R.nonuniform_axis(a.nodes, bl=f[0][0], br=f[0][1]) for a in r1]
+                            for f in nob_seq], exact=ref_dyadic(r1))
+    _twice(V, 'container_args[nonuniform_partition,lists]',
+           '%s; coordinate vector / min_pt / max_pt lists reused' % what0,
+           lambda: {'vecs': _deep(vec1), 'lo': list(lo1), 'hi': list(hi1), 'none': [None] * nd},
+           lambda c, k: odl.nonuniform_partition(*c['vecs'],
+                                                 min_pt=c['lo'] if k != 1 else c['none'],
+                                                 max_pt=c['hi'] if k != 2 else c['none']),
+           [0, 1, 2, 0])
+    _twice(V, 'container_args[RectGrid/IntervalProd,lists]', '%s; lists reused' % what0,
+           lambda: {'vecs': _deep(vec1), 'lo': list(lo1), 'hi': list(hi1)},
+           lambda c, k: odl.RectPartition(odl.IntervalProd(c['lo'], c['hi']),
+                                          odl.RectGrid(*c['vecs'])), [0, 1])
+
+
+def _nonmutating(nd):
+    """[(name, callable(partition, set, grid))]: methods documented / expected not to change
+    the object they are called on."""
+    other_i = odl.IntervalProd(0.0, 2.0)
+    other_g = odl.RectGrid([0.5, 1.5])
+    other_p = odl.RectPartition(other_i, other_g)
+    calls = []
+
+    def add(name, f):
+        calls.append((name, f))
+    for ax in range(nd):
+        for pos in (0, 1, 2):
+            add('IntervalProd.collapse', lambda p, s, g, ax=ax, pos=pos: s.collapse(
+                ax, float(s.min_pt[ax] + (s.max_pt[ax] - s.min_pt[ax]) * pos / 2.0)))
+    add('IntervalProd.collapse', lambda p, s, g: s.collapse(list(range(nd)),
+                                                           [float(v) for v in s.mid_pt]))
+    add('IntervalProd.squeeze', lambda p, s, g: s.squeeze())
+    for i in range(-nd, nd + 1):
+        add('IntervalProd.insert', lambda p, s, g, i=i: s.insert(i, other_i))
+        add('RectGrid.insert', lambda p, s, g, i=i: g.insert(i, other_g))
+        add('RectPartition.insert', lambda p, s, g, i=i: p.insert(i, other_p))
+    add('IntervalProd.insert', lambda p, s, g: s.insert(0, s))
+    add('RectGrid.insert', lambda p, s, g: g.insert(0, g))
+    add('RectPartition.insert', lambda p, s, g: p.insert(0, p))
+    add('IntervalProd.append', lambda p, s, g: s.append(other_i, s))
+    add('RectGrid.append', lambda p, s, g: g.append(other_g, g))
+    add('RectPartition.append', lambda p, s, g: p.append(other_p, p))
+    for idx in [0, -1, slice(None), slice(None, None, 2), list(range(nd))[::-1], [0, 0]]:
+        add('IntervalProd.__getitem__', lambda p, s, g, idx=idx: s[idx])
+        add('RectPartition.byaxis', lambda p, s, g, idx=idx: p.byaxis[idx])
+    for idx in [0, -1, slice(None), slice(None, None, 2), Ellipsis, (Ellipsis, 0), [0]]:
+        add('RectGrid.__getitem__', lambda p, s, g, idx=idx: g[idx])
+        add('RectPartition.__getitem__', lambda p, s, g, idx=idx: p[idx])
+    add('RectGrid.squeeze', lambda p, s, g: (g.squeeze(), g.squeeze(axis=0)))
+    add('RectPartition.squeeze', lambda p, s, g: (p.squeeze(), p.squeeze(axis=0)))
+    for ex in (1.0, 2.0, float('inf')):
+        add('IntervalProd.dist', lambda p, s, g, ex=ex: (
+            s.dist(s.max_pt + 1.0, exponent=ex), s.dist(s.min_pt - 2.0, exponent=ex),
+            s.dist(s.mid_pt, exponent=ex)))
+    add('IntervalProd.contains_set', lambda p, s, g: (s.contains_set(g), s.contains_set(s),
+                                                      s.contains_set(p, atol=0.5)))
+    add('IntervalProd.contains_all', lambda p, s, g: (s.contains_all(g.points()),
+                                                      s.contains_all(g.meshgrid),
+                                                      s.contains_all(g)))
+    add('IntervalProd.__contains__', lambda p, s, g: (s.mid_pt in s, (s.max_pt + 1) in s,
+                                                      s.approx_contains(s.max_pt + 0.1, 0.2)))
+    add('IntervalProd.element', lambda p, s, g: (s.element(), s.element(
+        s.mid_pt if nd > 1 else float(s.mid_pt[0]))))
+    add('IntervalProd.corners', lambda p, s, g: (s.corners(), s.corners(order='F')))
+    add('IntervalProd.approx_equals', lambda p, s, g: (
+        s.approx_equals(odl.IntervalProd(s.min_pt - 0.01, s.max_pt), atol=0.1), s == s,
+        s != other_i, hash(s)))
+    add('IntervalProd.measure', lambda p, s, g: (s.measure(), s.volume, s.true_ndim, s.mid_pt,
+                                                 s.extent, s.min(), s.max(), len(s)))
+    add('IntervalProd.arithmetic', lambda p, s, g: (s + 1.0, s - 1.0, s * 2.0, s * -1.0,
+                                                    s / 2.0, -s, +s, s + s, s - s, s * s))
+    add('IntervalProd.__repr__', lambda p, s, g: (repr(s), str(s)))
+    add('RectGrid.points', lambda p, s, g: (g.points(), g.points(order='F'), g.corners(),
+                                            g.corner_grid(), g.meshgrid, np.asarray(g)))
+    add('RectGrid.approx_equals', lambda p, s, g: (
+        g.approx_equals(other_g, atol=0.1), g == g, g != other_g, hash(g),
+        g.is_subgrid(g), g.is_subgrid(other_g), g[...].is_subgrid(g, atol=0.1),
+        g.approx_contains(g.min_pt, atol=0.1), g.min_pt in g, g.element(), g.convex_hull()))
+    add('RectGrid.min/max', lambda p, s, g: (g.min(), g.max(), g.min(out=np.zeros(nd)),
+                                             g.max(out=np.zeros(nd)), g.mid_pt, g.extent,
+                                             g.stride, g.size, len(g), g.is_uniform))
+    add('RectGrid.__repr__', lambda p, s, g: (repr(g), str(g)))
+    add('RectPartition.index', lambda p, s, g: (
+        p.index(s.mid_pt if nd > 1 else float(s.mid_pt[0])),
+        p.index(s.max_pt if nd > 1 else float(s.max_pt[0]), floating=True)))
+    add('RectPartition.approx_equals', lambda p, s, g: (
+        p.approx_equals(other_p, atol=0.1), p.approx_equals(p[...], atol=0.0), p == p[...],
+        p != other_p, hash(p)))
+    add('RectPartition.points', lambda p, s, g: (p.points(), p.points(order='F'), p.meshgrid,
+                                                 p.min(), p.max(), p.mid_pt, p.extent, len(p),
+                                                 p.size, p.has_isotropic_cells))
+    add('RectPartition.__repr__', lambda p, s, g: (repr(p), str(p), repr(p.byaxis)))
+    return calls
+
+
+def check_nonmutating(cfg, reqref, V):
+    """Every non-mutating method of the set / grid / partition is called on the very objects a
+    partition holds (and was built from); the partition must stay what it was."""
+    nd = len(reqref)
+    lo = _fl(a.lo for a in reqref)
+    hi = _fl(a.hi for a in reqref)
+    vecs = [_fl(a.nodes) for a in reqref]
+    for name, call in _nonmutating(nd):
+        intv = odl.IntervalProd(lo, hi)
+        grid = odl.RectGrid(*vecs)
+        p = odl.RectPartition(intv, grid)
+        s0 = snapshot(p)
+        site = 'non_mutating[%s]' % name
+        for ss, gg in ((intv, grid), (p.set, p.grid)):
+            V.evals += 1
+            try:
+                call(p, ss, gg)
+            except Exception as e:       # noqa
+                # whether the call itself is admissible is judged elsewhere (ops family)
+                V.skipped += 1
+                V.sigs.add('non-mutating-call-raises:%s:%s' % (name, type(e).__name__))
+        s1 = snapshot(p)
+        d = snap_diff(s0, s1)
+        if d:
+            V.add(site, 'partition_changed_by_non_mutating_call',
+                  'partition {%s}: after %s on the objects the partition was built from '
+                  '(and on part.set / part.grid), %s changed from %s to %s'
+                  % (describe(reqref), name, d[0], s0[d[0]], s1[d[0]]))
+    intv = odl.IntervalProd(lo, hi)
+    grid = odl.RectGrid(*vecs)
+    p = odl.RectPartition(intv, grid)
+    for name, call in _nonmutating(nd):
+        try:
+            call(p, intv, grid)
+        except Exception:       # noqa
+            pass
+    V.evals += 1
+    invariants(p, 'non_mutating[all methods in sequence]', V,
+               'partition {%s} after all non-mutating methods' % describe(reqref))
+    compare(p, reqref, ref_dyadic(reqref), 'non_mutating[all methods in sequence]', V,
+            'partition {%s} after all non-mutating methods' % describe(reqref))
+
+
+# ------------------------------------------------------------------------------------------
 # the bounded space
 
 def _uni_axes():
@@ -1601,6 +1945,8 @@ def run(cfg):
     elif w == 'alias':
         req = uni_ref(cfg['axes'])[0] if cfg['kind'] == 'uni' else non_ref(cfg['axes'])
         check_aliasing(cfg, p, req, exact, dxs, V)
+        check_containers(cfg, req, exact, dxs, V)
+        check_nonmutating(cfg, req, V)
     elif w == 'ops':
         others = [[POOL[i]] for i in range(len(POOL))] + [[POOL[2], POOL[1]]]
         check_ops(p, ref, V, others, thorough=(nd <= 2))
@@ -1649,7 +1995,14 @@ def meta(tier):
                 'as a float64/int64 ndarray and overwritten in place afterwards (+= and NaN); '
                 'every writeable array returned by a property or method of the partition, its '
                 'set and its grid is overwritten; the snapshot of all observables must stay '
-                'identical and the model comparison and invariants must still hold. '
+                'identical and the model comparison and invariants must still hold; every '
+                'dict / list argument (min_pt / max_pt dicts incl. partial, empty, negative '
+                'keys; nodes_on_bdry, shape, cell_sides, min/max and coordinate vector lists) is '
+                'reused for 2-4 calls with different other arguments (other grid of the same, '
+                'lower and higher ndim; other shape; other flags) and each result must equal '
+                'the result with a fresh equal container; every non-mutating method of the '
+                'set, grid and partition is called on the objects the partition holds and the '
+                'snapshot must stay identical. '
                 'history: one RectGrid object (incl. 1-point axes) shared by 2-3 '
                 'partitions of different sets (uniform_partition_fromgrid / RectPartition(set, '
                 'p.grid)); every sequence of readings (8 partition observables per partition, 3 '
